@@ -48,8 +48,32 @@ def scan() -> list[dict]:
     return out
 
 
+def scan_value() -> list[dict]:
+    """Every class anywhere under src/spox that defines `propagate_values` (a propagated value ends up
+    in reported shapes through ONNX's data propagation, so a new definition is a new way for a
+    reported type to depend on a value)."""
+    out = []
+    root = REPO / "src/spox"
+    for path in sorted(root.rglob("*.py")):
+        rel = str(path.relative_to(root))[:-3].replace("/", ".")
+        try:
+            mod = ast.parse(path.read_text(), filename=rel)
+        except Exception:  # noqa: BLE001
+            out.append({"module": rel, "cls": "<unparsable>", "hash": ""})
+            continue
+        for cls in ast.walk(mod):
+            if isinstance(cls, ast.ClassDef):
+                for st in cls.body:
+                    if isinstance(st, ast.FunctionDef) and st.name == "propagate_values":
+                        h = hashlib.sha1(ast.dump(st, include_attributes=False).encode()).hexdigest()[:12]
+                        out.append({"module": rel, "cls": cls.name, "hash": h})
+    return out
+
+
 def generate() -> dict:
     rows = scan()
+    vrows = scan_value()
+    vitems = [f"({lean_str(r['module'])}, {lean_str(r['cls'])})" for r in vrows]
     items = [f"({lean_str(r['module'])}, {lean_str(r['op'])})" for r in rows]
     text = (
         HEADER.format(src=OPSET_DIR + "/**/*.py", tool="translator/ml_overrides.py")
@@ -57,10 +81,13 @@ def generate() -> dict:
         + "namespace Generated.MLOverrides\n\n"
         + "def overrides : List (String × String) :=\n  "
         + lean_list(items).replace("), (", "),\n   (")
+        + "\n\n/-- Classes that define their own `propagate_values` (module under src/spox, class). -/\n"
+        + "def valueOverrides : List (String × String) :=\n  "
+        + lean_list(vitems).replace("), (", "),\n   (")
         + "\n\nend Generated.MLOverrides\n"
     )
     write_if_changed(GEN / "MLOverrides.lean", text)
-    return {"rows": rows}
+    return {"rows": rows, "value_rows": vrows}
 
 
 if __name__ == "__main__":
